@@ -74,7 +74,7 @@ def strings_param(gid, name, strs, width=None, **kw):
     return dict(gid=gid, name=name, type=-1, dims=[w, len(strs)], values=[s for s in strs], **kw)
 
 
-def rand_custom_param(r, gid, name, maxdesc=255):
+def rand_custom_param(r, gid, name, maxdesc=255, state=None):
     t = r.choice([-1, 1, 2, 4])
     nd = r.choice([0, 0, 1, 1, 2, 2, 3, r.randint(3, 7)])
     dims = []
@@ -90,6 +90,11 @@ def rand_custom_param(r, gid, name, maxdesc=255):
         cnt = 1
         for d in dims:
             cnt *= d
+    if r.random() < 0.02 and t in (1, -1) and state is not None and not state.get("big"):
+        state["big"] = True
+        dims = [r.choice([182, 200, 255]), r.choice([182, 200, 255])]     # one record of more than 32767 bytes (the next-offset word is unsigned)
+        cnt = dims[0] * dims[1]
+        nd = 2
     p = dict(gid=gid, name=name, type=t, dims=dims, desc=rand_desc(r, maxdesc), locked=r.random() < 0.25)
     if t == -1:
         if nd == 0:
@@ -279,6 +284,7 @@ def gen_case(seed, idx, big=False, force=None, ntsc_ok=True):
         if r.random() < 0.5:
             params.append(dict(gid=A, name=b"FORMAT", type=-1, dims=[8], values=[r.choice([b"SIGNED", b"UNSIGNED"])]))
             params.append(dict(gid=A, name=b"BITS", type=2, dims=[], values=[r.choice([12, 16])]))
+    big_state = {}
     # custom parameters in every group
     for g in groups:
         if g["name"] == b"ANALOG" and empty_analog:
@@ -290,7 +296,7 @@ def gen_case(seed, idx, big=False, force=None, ntsc_ok=True):
                 if nm.upper() not in taken:
                     break
             taken.add(nm.upper())
-            params.append(rand_custom_param(r, g["id"], nm))
+            params.append(rand_custom_param(r, g["id"], nm, state=big_state))
     for p in params:
         p.setdefault("desc", b"")
         p.setdefault("locked", False)
